@@ -43,7 +43,11 @@ Definition gather_Pr (e : einfo) (ks : list anode) : res (list (str * option str
   match find_child (e_uri e) (e_local e ++ s_Pr) ks with
   | None => Ok []
   | Some pr =>
-      foldM (fun d k => '(n, v) <- sub_val_of k ;; Ok (dict_set n v d)) (kids_of pr) []
+      foldM (fun d k =>
+               match k with
+               | AX _ => Ok d                       (* comment or PI: skipped *)
+               | AE _ _ => '(n, v) <- sub_val_of k ;; Ok (dict_set n v d)
+               end) (kids_of pr) []
   end.
 
 Definition get_pStyle (e : einfo) (ks : list anode) : res str :=
